@@ -50,6 +50,22 @@ CHECKS = {
                 technique="explicit-state reachability over the abstract machine states (pc, operand height, locals count) of every emitted function, with trace conformance against the real VM",
                 text="For every function of every accepted program (std, test-suite literals, spec examples, Engine-A scenarios, tail-call probes, and all programs of the core grammar up to n nodes) in four forms (as compiled, tree-shaken, JSON round trip, merged cumulatively into a running environment): all reachable (pc, h, l) states are visited and jump ranges, operand underflow, single height per pc, exit height 1, Load/Reset within the locals defined on every path, TailCall heights, and every table index are checked. The abstraction is bound to the VM by replaying real executions with the per-instruction trace hook (a disagreement is a machinery failure).",
                 note="Transfer functions read off execute_hot/execute_cold; Select modelled by its completed effect; programs limited to the corpus and the enumerated grammar."),
+    "C09": dict(engine="enum", category="exploration", design="5.1, 7/C09",
+                technique="bounded-exhaustive enumeration of all closed type terms up to a weight bound (recursive, partial, callable and process types included), all ordered pairs and triples, judged by an independent value-membership oracle with concrete witness values",
+                text="Every closed contractive type term of depth <= 3 and weight <= 5 (thorough 6; 6945 / 51392 types, unions in every variant order, Cycle references, partials, callables, processes) registered in a real Program: all ordered pairs through is_compatible / types_overlap and, where either answers true or the operands share an enumerated value, intersect_types / compute_complement; soundness alarms are concrete values (compatible but a value of A is not in B; shared value but no overlap; a value of A and B missing from the intersection; a value of A not B missing from the complement); reflexivity incl. variant-reversed copies and transitivity on all triples of the light types. The relation's stack overflows are isolated in a supervised worker process.",
+                note="Membership is exact for data values; three-valued for function/process tokens (unknown never alarms); process send variance abstained (docs silent). Seven known findings (partial names, partial/tuple overlap, callable overlap, unbounded recursion on recursive callables, cycle handling in the relation and in narrowing)."),
+    "C10": dict(engine="enum", category="exploration", design="7/C10",
+                technique="bounded-exhaustive differential execution of every program of a corpus + core grammar through every packaging path (tree-shake, JSON round trip, compile/run pipeline with capture injection, real merges into a running environment after every ordered pool sequence, import forms) against the as-compiled run",
+                text="34361 programs (test-suite literals, std modules, all core-grammar programs of <= 3 nodes, cores in packaging contexts, a module-shaped closure/record family): the index-free rendering of the result (functions by structural fingerprint with every table operand resolved) or the error kind is equal as compiled, tree-shaken, after JSON write/read (byte-stable), through the quiv compile/run pipeline in three wrappers incl. value capture injection, after real merges of independently compiled units into one Environment for every ordered sequence of a 6-program pool chosen to shift every table (as compiled and shaken), as REPL lines, and through seven import forms against the body evaluated in place; a fixed subset through the real quiv binary.",
+                note="REPL path compares data only; refs in captured/module values abstained (cannot be re-emitted as instructions); contexts capped at 2-node cores."),
+    "C13": dict(engine="enum", category="exploration", design="7/C13",
+                technique="exhaustive matrix of value universe x 16 construction paths x comparison forms (all ordered pairs, verdict-equal triples) against host structural equality, in the sync VM and in real multi-worker REPL sessions; ref identity additionally under every schedule within a deviation bound",
+                text="110 (thorough 301) values - ints incl. 2^70, binaries incl. equal-length pairs, named/labelled/nested tuples, closures over int/binary/generic captures, refs minted in several processes, process values - each reached by up to 16 construction paths (literal, computed, spread, generic identity/constructor, union result, field of a larger tuple, module import, closure capture, message with typed receive, built in / captured by another process, self reference): every ordered pair under pin equality, repeated-binder equality, literal patterns and triples; verdict = host structural equality, matrices reflexive / symmetric / transitive; refs(n) minting shapes x worker counts x transports, a subset under every schedule with <= 2 deviations.",
+                note="Tuple literal patterns whose name/labels differ from the value's are abstained (spec examples contradict the implementation); textually identical function definitions are deduplicated by the implementation and called equal (observed, not judged)."),
+    "C17": dict(engine="enum", category="exploration", design="7/C17",
+                technique="bounded-exhaustive enumeration of token strings, trivia placements and width ladders plus a corpus, each formatted by the real formatter and judged by reparse / AST equality modulo documented no-op rewrites / idempotence / comment and string preservation",
+                text="Every accepted program over a formatter-relevant token alphabet up to a token bound, with comments and blank lines inserted at every token gap, identifiers and strings stretched across the line-width boundary, every string style and hole nesting, plus test-suite, std and example sources: the output parses, compiles to the same bytecode / same program (AST equality modulo the rewrites the formatter documents), format(format(x)) = format(x), every comment survives exactly once in order, string contents byte-equal; no panic.",
+                note="Eight known findings remain open after eleven formatter fixes (comment order, comments in string holes, bare type binding patterns, ...); see known_findings.json."),
     "C14": dict(engine="sim", category="model_checking", design="4, 7/C14",
                 technique="stateless model checking of the real runtime over an instrumented effect backend with scheduler-controlled completion; host-side ownership model on the consumed event stream",
                 text="Resource scenarios over the real file builtins and the real ownership logic under every schedule within the deviation bound, effects immediate or deferred: backend calls vs the calls the ownership rules allow after every environment step, runtime closes only for terminated owners and at most once, at quiescence every resource of a terminated owner is closed (one known finding: never-awaited owners).",
